@@ -560,9 +560,16 @@ class Runner:
         kf_defs = ['-D%s' % f['define'] for f in active if f.get('define')]
         # 0. compile-time obligations (static_asserts about types): decided by the compiler, reported like any other violation
         for u in self.units:
-            for name, path, flags in u.obligations:
+            for ob in u.obligations:
+                name, path, flags = ob[:3]
+                only_if = ob[3] if len(ob) > 3 else None     # text the diagnostics must contain for the failure to count (the harness' own static_assert)
                 cmd = ['g++', '-std=c++17', '-fsyntax-only', '-w', '-I', os.path.join(REPO, 'include'), '-I', TOOLS] + u.inc + list(flags) + [os.path.join(VERIF, path)]
                 p = sh(cmd, check=False)
+                if p.returncode != 0 and only_if and only_if not in p.stdout:
+                    # the TU does not compile for another reason (e.g. the library now refuses this include order outright): nothing silent happened
+                    self.messages.append('compile-time obligation "%s" not applicable on this tree: the TU is rejected for another reason: %s' % (name, p.stdout[-300:]))
+                    self.extra_cov.setdefault('compile_obligations', []).append({'name': name, 'holds': None, 'note': 'TU rejected by the compiler for another reason'})
+                    continue
                 self.extra_cov.setdefault('compile_obligations', []).append({'name': name, 'holds': p.returncode == 0})
                 if p.returncode != 0:
                     os.makedirs(os.path.join(EVID, 'replay'), exist_ok=True)
